@@ -896,7 +896,82 @@ def check_real(case):
     check_trace(trace, "real", name)
 
 
-SUBS = {"virtual": check_virtual, "real": check_real}
+
+# ---------------------------------------------------------------------------------------------
+# alarm queue on its own (virtual clock): many pending alarms, removals before run() and from callbacks
+
+
+def check_alarm_queue(case):
+    """case: {"dues": [distinct ints, registration order], "pre": [indices removed before run()],
+    "incb": [[i, j], ...] (the callback of alarm i calls remove_alarm on alarm j)}.
+    Oracle: the alarms that were never successfully removed fire exactly once each, in order of their due
+    times (all distinct), never early; an alarm removed while pending never fires, the first remove_alarm
+    returns True and a second one False.  Removing an alarm that already fired: not asserted (text silent)."""
+    dues = case["dues"]
+    n = len(dues)
+    world = VWorld([], 0)
+    fake_time = types.SimpleNamespace(time=world.now, monotonic=world.now, sleep=world.busy)
+    fake_selectors = types.SimpleNamespace(DefaultSelector=lambda: _FakeSelector(world), EVENT_READ=1, EVENT_WRITE=2)
+    saved = (_sl.time, _sl.selectors)
+    _sl.time, _sl.selectors = fake_time, fake_selectors
+    fired, removed, handles = [], set(), [None] * n
+    incb = {}
+    for i, j in case.get("incb", []):
+        incb.setdefault(i % n, []).append(j % n)
+    world.rt = types.SimpleNamespace(watches={})
+
+    def remove(loop, j, where):
+        was_pending = j not in fired and j not in removed
+        r = loop.remove_alarm(handles[j])
+        if was_pending:
+            if r is not True:
+                raise Violation("remove-alarm-result", f"{where}: remove_alarm of pending alarm #{j} (due {dues[j]}) returned {r!r}")
+            removed.add(j)
+            r2 = loop.remove_alarm(handles[j])
+            if r2 is not False:
+                raise Violation("remove-alarm-result", f"{where}: second remove_alarm of alarm #{j} returned {r2!r}")
+        elif j in removed and r is not False:
+            raise Violation("remove-alarm-result", f"{where}: remove_alarm of the already removed alarm #{j} returned {r!r}")
+
+    try:
+        from urwid.event_loop.select_loop import SelectEventLoop
+
+        loop = SelectEventLoop()
+        loop.watch_file(KEEPER_FD, lambda: None)
+
+        def make(i):
+            def cb():
+                if world.now() < dues[i]:
+                    raise Violation("alarm-early", f"alarm #{i} due {dues[i]} ran at {world.now()}")
+                fired.append(i)
+                for j in incb.get(i, []):
+                    if j != i:
+                        remove(loop, j, f"in callback of alarm #{i}")
+            return cb
+
+        for i, d in enumerate(dues):
+            handles[i] = loop.alarm(d, make(i))
+        for j in case.get("pre", []):
+            remove(loop, j % n, "before run()")
+        loop.run()
+    finally:
+        _sl.time, _sl.selectors = saved
+    if len(set(fired)) != len(fired):
+        raise Violation("alarm-once", f"dues {dues}: alarms fired {fired}: one ran twice")
+    # `removed` only receives alarms that were pending when remove_alarm returned True: any firing came after
+    bad = [i for i in fired if i in removed]
+    if bad:
+        raise Violation("removed-alarm-ran", f"dues {dues} pre {case.get('pre')} incb {case.get('incb')}: removed alarm(s) {bad} ran; fired {fired}")
+    expect = sorted((i for i in range(n) if i not in removed), key=lambda i: dues[i])
+    if fired != expect:
+        raise Violation(
+            "alarm-due-order",
+            f"alarms registered with due times {dues}, removed {sorted(removed)}: fired in order "
+            f"{[dues[i] for i in fired]}, expected {[dues[i] for i in expect]}",
+        )
+
+
+SUBS = {"virtual": check_virtual, "real": check_real, "alarmq": check_alarm_queue}
 
 
 # ---------------------------------------------------------------------------------------------
@@ -1023,6 +1098,23 @@ def _classify(case):
     return sorted(out)
 
 
+
+def _alarmq_sweep(nmax):
+    """every registration order of n distinct due times (n <= nmax) x one removal before run()"""
+    for n in range(2, nmax + 1):
+        for perm in itertools.permutations(range(1, n + 1)):
+            for j in range(n):
+                yield {"dues": list(perm), "pre": [j], "incb": []}
+
+
+_alarmq_cases = st.builds(
+    lambda dues, pre, incb: {"dues": dues, "pre": pre, "incb": incb},
+    st.lists(st.integers(1, 40), min_size=3, max_size=14, unique=True),
+    st.lists(st.integers(0, 13), max_size=5),
+    st.lists(st.tuples(st.integers(0, 13), st.integers(0, 13)).map(list), max_size=4),
+)
+
+
 def shard(ctx):
     # the real-time half goes first: it mostly sleeps, and must not be starved of budget by the
     # CPU-bound virtual half on a busy machine.  One campaign per loop from the same derived seed, i.e.
@@ -1033,6 +1125,11 @@ def shard(ctx):
             ctx.given("real", _case(name), ctx.scale(7, 125), nontrivial=_nontrivial, classify=_classify)
     if ctx.failure is None:
         ctx.given("virtual", _case(None), ctx.scale(500, 15000), nontrivial=_nontrivial, classify=_classify)
+    if ctx.failure is None:
+        ctx.sweep("alarmq", _alarmq_sweep(ctx.scale(7, 8)), nontrivial=lambda c: len(c["dues"]) >= 4,
+                  exhaustive_name="alarm queue: every registration order of <=7 (8) due times x one removal")
+    if ctx.failure is None:
+        ctx.given("alarmq", _alarmq_cases, ctx.scale(400, 8000), nontrivial=lambda c: bool(c["pre"] or c["incb"]))
     for k, v in sorted(_STATS.items()):
         ctx.count(k, v)
 
